@@ -198,7 +198,7 @@ def check_c16(pid, tier):
     quick = tier == "quick"
     cases_path = os.path.join(work, "cases.ndjson")
     fh = open(cases_path, "w")
-    dims = (2, 2, 3) if quick else (1, 3, 3)
+    dims = (2, 2, 3) if quick else (1, 4, 4)
     r = vlib.run_tlc("ErrorRetry", "INIT Init\nNEXT Next\nCONSTANTS\n MinN = %d\n MaxN = %d\n MaxSegs = %d\nINVARIANTS Sane Emit\n" % dims,
                      raw_sink=lambda m, raw: fh.write(raw + "\n"), timeout=3000)
     fh.close()
